@@ -348,10 +348,137 @@ def free_running(webhooks, iterations=200):
     return problems
 
 
+def outcome_menu():
+    """(name, factory, class name) of everything a job is made to raise in
+    the sequential pass: exceptions with empty, multi-line, non-ASCII,
+    non-string and very long messages, OS errors, exceptions raised from
+    other exceptions."""
+    from bert_e import exceptions as X
+
+    def template():
+        e = X.TemplateException.__new__(X.BuildFailed)
+        Exception.__init__(e, 'msg')
+        e.msg = 'msg'
+        return e
+
+    def chained():
+        try:
+            raise KeyError('inner')
+        except KeyError as inner:
+            e = RuntimeError('outer')
+            e.__cause__ = inner
+            return e
+    return [
+        ('return', None),
+        ('silent', lambda: X.NothingToDo('nothing')),
+        ('silent-empty', lambda: X.NothingToDo()),
+        ('template', template),
+        ('internal', lambda: X.QueuesNotValidated()),
+        ('jobfailure', lambda: X.JobFailure('failed on purpose')),
+        ('jobfailure-empty', lambda: X.JobFailure()),
+        ('runtime', lambda: RuntimeError('boom')),
+        ('empty-message', lambda: AssertionError()),
+        ('bare-exception', lambda: Exception()),
+        ('multi-line', lambda: RuntimeError('line 1\nline 2\n')),
+        ('newline-only', lambda: RuntimeError('\n')),
+        ('non-ascii', lambda: ValueError('caf\u00e9 \u2603 \ud83d\ude00')),
+        ('non-string-args', lambda: ValueError(1, None, b'x')),
+        ('none-arg', lambda: Exception(None)),
+        ('key-error', lambda: KeyError('k')),
+        ('index-error', lambda: IndexError()),
+        ('os-error', lambda: OSError(5, 'Input/output error', '/x')),
+        ('unicode-error', lambda: UnicodeDecodeError(
+            'utf-8', b'\xff', 0, 1, 'invalid start byte')),
+        ('long-message', lambda: RuntimeError('x' * 100000)),
+        ('percent', lambda: RuntimeError('100% %s %(name)s {0} {x}')),
+        ('chained', chained),
+        ('stop-iteration', lambda: StopIteration()),
+        ('recursion', lambda: RecursionError('maximum recursion depth')),
+        ('memory', lambda: MemoryError()),
+    ]
+
+
+def sequential_outcomes(p, part, nparts):
+    """Every ordered pair of outcomes of the menu, on one worker, for both
+    values of `backtrace` and both kinds of job: process_task must return,
+    record the job with its status and clear the marker, twice in a row."""
+    core.import_berte()
+    from bert_e import exceptions as X
+    menu = outcome_menu()
+    idx = -1
+    for backtrace in (True, False):
+        for k1 in (('pr', 1), ('commit', 'c1')):
+            for n1, f1 in menu:
+                for n2, f2 in menu:
+                    idx += 1
+                    if idx % nparts != part:
+                        continue
+                    b = build(backtrace)
+                    seq = [(n1, f1), (n2, f2), ('return', None)]
+                    pos = []
+
+                    def dispatch(job, default=None):
+                        name, f = seq[len(pos)]
+                        pos.append(name)
+                        if f is not None:
+                            raise f()
+                    b.dispatch = dispatch
+                    keys = [k1, ('pr', 2), ('commit', 'c3')]
+                    case = {'outcomes': [n1, n2], 'backtrace': backtrace,
+                            'first_job': list(k1)}
+                    for key, (name, f) in zip(keys, seq):
+                        job = make_job(b, key)
+                        b.put_job(job)
+                        problems = []
+                        try:
+                            got = b.process_task()
+                        except BaseException as e:
+                            problems.append(
+                                'process_task raised %r: the worker loop '
+                                'dies' % (e,))
+                            got = None
+                        p.evaluations += 1
+                        if name != 'return':
+                            p.nontrivial += 1
+                        if got is not None:
+                            exc = f() if f else None
+                            if got is not job or not b.tasks_done or \
+                                    b.tasks_done[0] is not job:
+                                problems.append('job not recorded first in '
+                                                'tasks_done')
+                            if not job.done:
+                                problems.append('job not marked done')
+                            want = type(exc).__name__ if exc is not None \
+                                else ''
+                            if exc is not None and not backtrace and \
+                                    isinstance(exc, (X.SilentException,
+                                                     X.TemplateException)):
+                                want = ''
+                            if job.status != want:
+                                problems.append('status %r, expected %r' % (
+                                    job.status, want))
+                        if 'current job' in b.status:
+                            problems.append('current-job marker not cleared')
+                        if b.task_queue.unfinished_tasks:
+                            problems.append('task_done() not called')
+                        for pr in problems:
+                            p.mismatch('outcome:%s:%s' % (name, pr[:40]),
+                                       'after a job raising %s: %s (%s)' % (
+                                           name, pr, case), case)
+                        if problems:
+                            break
+
+
 def run(tier, seed, workers=None):
     cr = CheckResult(PROP, 'model_checking')
     tot = core.Part()
     per_cfg = []
+    seq = core.run_parts(sequential_outcomes, 8, workers=workers)
+    tot.evaluations += seq.evaluations
+    tot.nontrivial += seq.nontrivial
+    tot.mismatches += seq.mismatches
+    tot.error = tot.error or seq.error
+    tot.counters['sequential_outcome_jobs'] = seq.evaluations
     for ci, (webhooks, bound) in enumerate(CONFIGS[tier]):
         for rotation, backtrace in ((0, True), (3, False)) if tier == 'quick'\
                 else ((0, True), (2, True), (3, False), (5, False)):
